@@ -45,7 +45,7 @@ def targets():
                     meta = json.load(open(mp))
                 out.append({'id': 'S-' + d, 'patch': p, 'property': meta.get('property'),
                             'what': meta.get('summary'), 'kind': 'seeded-by-subagent',
-                            'assessment': meta.get('assessment')})
+                            'assessment': meta.get('assessment'), 'neutralised': meta.get('neutralised')})
     return out
 
 
@@ -54,6 +54,10 @@ def one(t, runs, use_examples):
     res = {'id': t['id'], 'kind': t['kind'], 'what': t['what'], 'declared_property': t['property'], 'checks': {}}
     if t.get('assessment'):
         res['assessment'] = t['assessment']      # why a miss is expected (outside what the property states)
+    if t.get('neutralised'):
+        res['status'] = 'skipped: neutralised by a later fix of the library (%s)' % t['neutralised']
+        shutil.rmtree(scratch, ignore_errors=True)
+        return res
     try:
         shutil.copytree(os.path.join(REPO, 'fxpmath'), os.path.join(scratch, 'fxpmath'))
         rc, out = sh(['patch', '-p1', '-s', '-d', scratch, '-i', t['patch']])
